@@ -22,6 +22,12 @@ class SimStepCap(Exception):
     """The run needed more loop iterations than the cap: livelock."""
 
 
+class SimLivelock(BaseException):
+    """Code under test spins without ever yielding to the event loop (e.g. a
+    retry loop around a failing write).  BaseException so that it passes
+    through the `except Exception` / `except OSError` clauses of that code."""
+
+
 class _FakeSelector:
     def __init__(self, loop):
         self._loop = loop
